@@ -87,7 +87,10 @@ func (k Keeper) UpgradeClient(
 	}
 
 	k.SetClientState(ctx, chainName, newClientState)
-	k.SetClientConsensusState(ctx, chainName, newClientState.GetLatestHeight(), newConsensusState)
+	// a TSS client keeps no consensus state (see CreateClient)
+	if newConsensusState.ClientType() != exported.TSS {
+		k.SetClientConsensusState(ctx, chainName, newClientState.GetLatestHeight(), newConsensusState)
+	}
 
 	k.Logger(ctx).Info(
 		"client state upgraded",
@@ -149,7 +152,10 @@ func (k Keeper) ToggleClient(
 	if err := newClientState.Initialize(ctx, k.cdc, k.ClientStore(ctx, chainName), newConsensusState); err != nil {
 		return err
 	}
-	k.SetClientConsensusState(ctx, chainName, newClientState.GetLatestHeight(), newConsensusState)
+	// a TSS client keeps no consensus state (see CreateClient)
+	if newConsensusState.ClientType() != exported.TSS {
+		k.SetClientConsensusState(ctx, chainName, newClientState.GetLatestHeight(), newConsensusState)
+	}
 
 	k.Logger(ctx).Info(
 		"client state toggled",
